@@ -251,6 +251,18 @@ def run(prog, rep, tier):
                    'constructor calls %s unconditionally: chunk 0 is decrypted without tag verification in the default (authenticated) mode' % b.term.cmethod,
                    nw.loc(b.idx))
 
+    # ---------------- R04.6 "contiguously from the start": a chunk only verifies at its own position -- the nonce binds the chunk number
+    bn = one_body(prog, rep, 'R04.6', 'mla', exact='layers::encrypt::build_nonce')
+    if bn is not None:
+        from .c06 import nonce_layout
+        layout = nonce_layout(prog, bn)
+        ctr = [(rng, w) for rng, w in layout if w in ('ctr:be', 'ctr:le') and rng is not None and None not in rng and rng[1] - rng[0] == 4]
+        pre = [(rng, w) for rng, w in layout if w == 'prefix' and rng is not None and None not in rng and rng[1] - rng[0] == 8]
+        ok = len(ctr) == 1 and len(pre) == 1 and len(layout) == 2 and (ctr[0][0][1] <= pre[0][0][0] or pre[0][0][1] <= ctr[0][0][0])
+        rep.ob('R04.6', ok, 'R04.6|%s|nonce-binds-chunk-number' % bn.nkey, 'nonce = 8-byte archive prefix + the 4 low-order bytes of the chunk counter' if ok else
+               'the nonce does not contain the 4 low-order bytes of the chunk counter (layout %s): a chunk and its tag verify at any position, so reordered or replayed '
+               'chunks pass the default (authenticated) repair' % (layout,), bn.loc())
+        # and the fail-safe reader's loads use the running chunk counter (same rule as R03.3, on the unauthenticated + authenticated loaders)
     # ---------------- R04.5 the authentication failure reaches the latch: nothing below turns it into success
     n_s, sites, bad = wrong_tag_swallows(prog, skip_keys=(rd.key,) if rd is not None else ())
     rep.floor('R04.5', n_s, 5, 'call sites of functions that may return AuthenticatedDecryptionWrongTag')
